@@ -35,7 +35,14 @@ trap 'rm -rf "$work"' EXIT
 } > "$work/overlay.json"
 
 cd "$VERIF" || exit 3
-if ! go build -race -overlay "$work/overlay.json" -o "$work/racepass" ./checks/c09/racepass 2>&1; then
+cover=()
+if [ -n "${RACEPASS_COVER:-}" ]; then
+  e=github.com/cloudwego/eino
+  cover=(-cover "-coverpkg=$e/compose,$e/schema,$e/callbacks,$e/internal/...,$e/flow/...,$e/utils/...,$e/components/...,verif/checks/c09/racepass")
+  mkdir -p "$RACEPASS_COVER"
+  export GOCOVERDIR="$RACEPASS_COVER"
+fi
+if ! go build -race "${cover[@]}" -overlay "$work/overlay.json" -o "$work/racepass" ./checks/c09/racepass 2>&1; then
   echo "racepass.sh: build failed"
   exit 3
 fi
